@@ -12,6 +12,7 @@ let families : (string * (string list -> string)) list = [
   "storage", Fam_storage.run;
   "db", Fam_storage.run_db;
   "crash", Fam_storage.run_crash;
+  "sess", Fam_sess.run;
 ]
 
 let () =
